@@ -183,6 +183,48 @@ example :
   refine ⟨by decide, by decide, by decide, by decide, by decide, ?_⟩
   exact (Model.PropL.setProp_is_source _ (by decide) _ _).symm
 
+/-- The legacy `depends_on` listener, read from `HasTraits._init_trait_property_listener`: `pre_notify`
+(registered first, with `priority=True`) and `notify`, interpreted with the `cached + ':old'` dictionary
+slot the model abstracts away.  For a cached `depends_on` property the model's dispatch of a firing change
+is: run `pre_notify` on the state with an empty slot (it drops the cache entry and parks it in the slot),
+the sibling handlers, then `notify` with that slot (it empties the slot and calls
+`trait_property_changed(name, old)` unless the parked entry is `Undefined`), the later siblings; for an
+uncached one `notify` is `trait_property_changed(name, None)`.  The slot is empty again afterwards. -/
+theorem C12_depends_on_handler_is_source (P : Env Val) (hl : P.legacy = true) (s0 : St Val) (m : Mutation) :
+    (P.cached = true →
+      let c1 := Model.PropL.execL P (tpc P) Generated.PropertyProg.legacyPreNotifyProg { st := s0 }
+      let c2 := Model.PropL.execL P (tpc P) Generated.PropertyProg.legacyNotifyProg
+                  { st := sib P (P.sibPre m) c1.st, oldSlot := c1.oldSlot }
+      dispatchFire P s0 m = sib P (P.sibPost m && s0.dyn) c2.st ∧ c2.oldSlot = none)
+    ∧ (P.cached = false →
+      dispatchFire P s0 m = sib P (P.sibPost m && s0.dyn)
+        (Model.PropL.execL P (tpc P) Generated.PropertyProg.legacyNotifyUncachedProg
+          { st := sib P (P.sibPre m) s0 }).st)
+    ∧ Generated.PropertyProg.legacyRegistrations = ["pre_notify:priority", "notify"] := by
+  refine ⟨fun hc => ?_, fun hc => ?_, rfl⟩
+  · have h1 := Model.PropL.legacyPre_is_source P hl hc s0
+    have h2 := Model.PropL.legacyNotify_is_source P (sib P (P.sibPre m) (popCache P s0)) (popOld P s0)
+      (Model.PropL.popOld_legacy_ne_undefined P hl s0)
+    simp only [h1.1, h1.2, h2.1, h2.2, dispatchFire, hl, if_true, and_self]
+  · rw [Model.PropL.legacyNotifyUncached_is_source]
+    have hp : popCache P s0 = s0 := by simp [popCache, hc]
+    have ho : popOld P s0 = .none := by simp [popOld, hc, hl]
+    simp only [dispatchFire, hl, if_true, hp, ho]
+
+/-- Never stale for `depends_on=` properties, stated on the interpreted listener: from any state
+satisfying the invariant (after the heap was changed, so only the weak invariant is assumed), running the
+translated `pre_notify`, any sibling handlers, and the translated `notify` re-establishes the invariant. -/
+theorem C12_never_stale_source_depends_on (P : Env Val) (g : Heap → Val) (hG : PartialGetter P.G g)
+    (hl : P.legacy = true) (hc : P.cached = true) (s0 : St Val) (hw : NoEntryIfUncached P s0) (b : Bool) :
+    let c1 := Model.PropL.execL P (tpc P) Generated.PropertyProg.legacyPreNotifyProg { st := s0 }
+    Inv P g (Model.PropL.execL P (tpc P) Generated.PropertyProg.legacyNotifyProg
+      { st := sib P b c1.st, oldSlot := c1.oldSlot }).st := by
+  have h1 := Model.PropL.legacyPre_is_source P hl hc s0
+  have h2 := Model.PropL.legacyNotify_is_source P (sib P b (popCache P s0)) (popOld P s0)
+    (Model.PropL.popOld_legacy_ne_undefined P hl s0)
+  simp only [h1.1, h1.2, h2.1]
+  exact legacyNotify_inv P g hG _ _ (sib_inv P g hG b _ (popCache_inv P g s0 hw))
+
 /-- Never stale, stated on the interpreted source: after any history, running the translated
 `cached_property.decorator` returns what the getter computes from the heap as it is now, and
 running the translated observer handler leaves the invariant intact. -/
